@@ -15,6 +15,7 @@ type Num struct {
 	S int    `json:"s,omitempty"`
 	N int64  `json:"n,omitempty"`
 	D int64  `json:"d,omitempty"`
+	E int    `json:"e,omitempty"`    // c = "pow2": the double s * 2^e
 	B string `json:"bits,omitempty"` // only for c = "other"
 }
 
@@ -32,6 +33,8 @@ func (n Num) Float() (float64, bool) {
 	case "fin":
 		// exact when d is a power of two; otherwise the correctly rounded quotient
 		return float64(n.S) * (float64(n.N) / float64(n.D)), true
+	case "pow2":
+		return math.Ldexp(float64(n.S), n.E), true
 	}
 	return 0, false
 }
@@ -49,6 +52,13 @@ func numOf(f float64) Num {
 			return Num{C: "zero", S: -1}
 		}
 		return Num{C: "zero", S: 1}
+	}
+	if fr, ex := math.Frexp(math.Abs(f)); fr == 0.5 && (ex-1 >= 31 || ex-1 <= -21) {
+		sg := 1
+		if f < 0 {
+			sg = -1
+		}
+		return Num{C: "pow2", S: sg, E: ex - 1}
 	}
 	r := new(big.Rat).SetFloat64(f)
 	s := 1
